@@ -24,9 +24,13 @@ import (
 // Crash is the panic value that models process death.
 type Crash struct{}
 
-// Fault counts store writes; when the count reaches At the write either kills the
-// operation (Kind 0: Crash panic, and every later write panics too) or fails once
-// with an error (Kind 1).
+// Fault counts store writes (object store and ref store may share one). When the
+// count reaches At:
+//   Kind 0 ("process death"): that write and every later one has no effect and
+//          returns an error - the persistent state is exactly the prefix of writes a
+//          killed process would have left (operations with worker goroutines cannot be
+//          unwound by a panic, so death is modelled at the storage boundary);
+//   Kind 1 ("transient error"): that one write fails, later writes succeed.
 type Fault struct {
 	At     int // 0 = never
 	Kind   int
@@ -42,13 +46,12 @@ func (f *Fault) before(name string) error {
 		return nil
 	}
 	if f.Dead {
-		panic(Crash{})
+		return ErrInjected
 	}
 	f.Writes++
 	if f.At != 0 && f.Writes == f.At {
 		if f.Kind == 0 {
 			f.Dead = true
-			panic(Crash{})
 		}
 		return ErrInjected
 	}
